@@ -735,4 +735,57 @@ theorem xmlKeyError_none {X : List (Nat × PStr)} {T : Tbl} (h : XmlOK X T = tru
   have := h c (by simp; omega)
   simp [hn] at this
 
+
+/-! ## substitute_html5 -/
+
+theorem escapeEntities_noamp (T : Tbl) (k : Nat) (l : PStr) (h : 38 ∉ l) : escapeEntities T k l = l := by
+  induction l generalizing k with
+  | nil => cases k <;> simp [escapeEntities]
+  | cons c cs ih =>
+    simp only [List.mem_cons, not_or] at h
+    have hc : c ≠ 38 := fun e => h.1 e.symm
+    cases k with
+    | zero => simp [escapeEntities, hc, ih 0 h.2]
+    | succ k => simp [escapeEntities, ih k h.2]
+
+/-- text round trip without the "`&` is always caught" premise, for strings that hold no `&` -/
+theorem html_text_roundtrip_noamp (T : Tbl) (late : Bool) (ps : List Particle) (rep : PStr → PStr)
+    (hR : RepOK T rep ps) : ∀ l, 38 ∉ l → readText T late 0 (reSub ps rep 0 l) = l := by
+  refine reSub_induction ps (motive := fun l => 38 ∉ l → readText T late 0 (reSub ps rep 0 l) = l) ?_ ?_ ?_
+  · intro _; simp [reSub, readText]
+  · intro p rest hp hk _ hfm ih hno
+    obtain ⟨n, hn, hname, _, hback, _⟩ := hR p hp
+    have hrest : 38 ∉ rest := fun hm => hno (List.mem_append_right _ hm)
+    rw [reSub_hit ps _ p rest hk hfm, hn, readText_ref T late n _ hname, entityRef_of_entry hback, ih hrest]
+  · intro c cs hfm ih hno
+    simp only [List.mem_cons, not_or] at hno
+    have hc : c ≠ 38 := fun e => hno.1 e.symm
+    rw [reSub_miss ps _ c cs hfm, readText_plain T late c _ hc, ih hno.2]
+
+theorem html_attr_roundtrip_noamp (T : Tbl) (ps : List Particle) (rep : PStr → PStr)
+    (hR : RepOK T rep ps) (hq : T.html5.get [113, 117, 111, 116, 59] = some [34]) :
+    ∀ l, 38 ∉ l → unescape T 0 (reSub ps rep 0 l) = l ∧ unescape T 0 (replaceDq (reSub ps rep 0 l)) = l := by
+  refine reSub_induction ps
+    (motive := fun l => 38 ∉ l → unescape T 0 (reSub ps rep 0 l) = l ∧
+      unescape T 0 (replaceDq (reSub ps rep 0 l)) = l) ?_ ?_ ?_
+  · intro _; simp [reSub, unescape, replaceDq]
+  · intro p rest hp hk _ hfm ih hno
+    obtain ⟨n, hn, hname, hlen, _, hback⟩ := hR p hp
+    have hrest : 38 ∉ rest := fun hm => hno (List.mem_append_right _ hm)
+    rw [reSub_hit ps _ p rest hk hfm, hn, replaceDq_ref n _ hname,
+      unescape_ref T n _ _ hname (by omega) hback, unescape_ref T n _ _ hname (by omega) hback,
+      (ih hrest).1, (ih hrest).2]
+    exact ⟨rfl, rfl⟩
+  · intro c cs hfm ih hno
+    simp only [List.mem_cons, not_or] at hno
+    have hc : c ≠ 38 := fun e => hno.1 e.symm
+    rw [reSub_miss ps _ c cs hfm, unescape_plain T c _ hc, (ih hno.2).1]
+    refine ⟨rfl, ?_⟩
+    simp only [replaceDq]
+    split
+    · rename_i h34
+      have : quotEnt = ref [113, 117, 111, 116] := rfl
+      rw [this, unescape_ref T _ _ [34] (by decide) (by decide) hq, (ih hno.2).2, h34]; rfl
+    · rw [unescape_plain T c _ hc, (ih hno.2).2]
+
 end BS.Entities
